@@ -68,7 +68,8 @@ static const unsigned char *in_p; static size_t in_n, in_pos;
 static ssize_t in_read(int fd, char *buf, size_t len) {
   size_t k = in_n - in_pos; if (k > len) k = len;
   if (k > 37) k = 37;                       /* odd chunking */
-  memcpy(buf, in_p + in_pos, k); in_pos += k; return k;
+  if (k) memcpy(buf, in_p + in_pos, k);
+  in_pos += k; return k;
 }
 static hbuf o_msg;
 static ssize_t out_write(int fd, const char *buf, size_t len) { hbuf_add(&o_msg, buf, len); return len; }
@@ -132,7 +133,7 @@ static void run_case(icase *c, const unsigned char *inp, size_t n, const char *E
   if (q_to.n) fwrite(q_to.p, 1, q_to.n, h_out); else fputc('-', h_out);
   fputc(' ', h_out); h_hex(m->p, m->n);
   if (ex == 0 && !c->nflag) {
-    static hbuf copy; hbuf_reset(&copy); hbuf_add(&copy, m->p, m->n);
+    static hbuf copy; hbuf_reset(&copy); if (m->n) hbuf_add(&copy, m->p, m->n);
     int ex2 = run_inject(c, copy.p, copy.n, 1);
     fprintf(h_out, " %d ", ex2);
     if (q_to.n) fwrite(q_to.p, 1, q_to.n, h_out); else fputc('-', h_out);
